@@ -45,7 +45,7 @@ def build(r):
     q.version = r.choice([None, None, '3'])
     mref = f'{q.model_project}.{q.model_name}' + (f'.{q.version}' if q.version else '')
     t = r.choice(['t1', 't2'])
-    q.shape = r.choice(['t-m', 't-m', 't-u-m', 't-m-v'])
+    q.shape = r.choice(['t-m', 't-m', 't-u-m', 't-m-v', 't-m-v-w'])
     frm = f'{HOME[t]}.{t} AS t'
     q.tables = {'t': (HOME[t], t)}
     q.on_conj = []
@@ -74,10 +74,21 @@ def build(r):
         on = f' ON m.{mc} = t.{tc}' if r.random() < 0.5 else f' ON t.{tc} = m.{mc}'
         q.columns_map = {mc: ['t', tc]}
     frm += f' JOIN {mref} AS m{on}'
-    if q.shape == 't-m-v':
+    q.on_eq = [('t', 'id', 'u', 'id')] if q.shape == 't-u-m' else []
+    if q.shape in ('t-m-v', 't-m-v-w'):
         v = r.choice(['t2', 't3'])
         frm += f' {r.choice(["JOIN", "LEFT JOIN"])} {HOME[v]}.{v} AS v ON t.id = v.id'
         q.tables['v'] = (HOME[v], v)
+        q.on_eq.append(('t', 'id', 'v', 'id'))
+    if q.shape == 't-m-v-w':
+        # a second table after the model, joined on a column of the MODEL's output (or of the first table): the position of a member
+        # in the join and the number of tables fetched so far differ from here on
+        w = 't3' if v == 't2' else 't2'
+        partner = r.choice(['m', 'm', 't'])
+        frm += f' JOIN {HOME[w]}.{w} AS w ON w.id = {partner}.{"k9" if partner == "m" else "id"}'
+        q.tables['w'] = (HOME[w], w)
+        if partner == 't':
+            q.on_eq.append(('w', 'id', 't', 'id'))
     # conjuncts with unique constants
     q.conj = []
     k0 = 100 + r.randint(0, 50) * 10
@@ -295,6 +306,23 @@ def judge(q, plan):
                     out.append(({'cond': 'semi-join-filter-although-on-has-or'}, {'fetch': repr(f)[:200]}))
                 elif keeps_unmatched_right and (integ, ftab) == q.tables.get('u'):
                     out.append(({'cond': 'semi-join-filter-under-right-or-full-join', 'join': q.u_join}, {'fetch': repr(f)[:200]}))
+                else:
+                    # WHICH rows the restriction is built from: the distinct values of the partner column of an ON equality of this
+                    # table, taken from that partner's own fetch - nothing else
+                    try:
+                        sub = next(s_ for s_ in flat if s_.step_num == cj.args[1].value.step_num)
+                        srcf = next(s_ for s_ in flat if s_.step_num == sub.dataframe.step_num)
+                        src_alias = str(srcf.query.from_table.alias.parts[-1]).lower()
+                        dist_col = str(sub.query.targets[0].parts[-1]).lower()
+                        this_col = str(cj.args[0].parts[-1]).lower()
+                        ta_ = str(getattr(q, 't_alias', None) or 't').lower()      # (the first table's alias is sometimes spelled like the model)
+                        norm_ = lambda a_: 't' if a_ == ta_ else a_
+                        pair = {(norm_(falias), this_col), (norm_(src_alias), dist_col)}
+                        if getattr(q, 'on_eq', None) is not None and not any({(a1, c1), (a2, c2)} == pair for a1, c1, a2, c2 in q.on_eq):
+                            out.append(({'cond': 'semi-join-filter-built-from-a-table-the-on-clause-does-not-name', 'shape': q.shape},
+                                        {'fetch': repr(f)[:200], 'source': repr(srcf)[:160], 'distinct': repr(sub)[:120]}))
+                    except (StopIteration, AttributeError, IndexError):
+                        pass
                 continue
             on_owner = [c for c in q.on_conj if set(c['consts']) & cs]
             if on_owner:
